@@ -1,4 +1,255 @@
 package engine
 
-func runC13Bounds(c *Ctx) {}
-func runC13Misc(c *Ctx)   {}
+import (
+	"fmt"
+	"go/token"
+	"strings"
+
+	"golang.org/x/tools/go/ssa"
+)
+
+// boundsScope: functions of valid and valid/internal reachable from the validation entry
+// points (rule functions included).
+func runC13Bounds(c *Ctx) {
+	p := c.P
+	c.Rule("C13-BOUNDS", "every index/slice expression reachable from a validation entry point is proved in bounds (difference constraints from dominating branches, induction variables, axioms of strings.Index/Split/make)", 30)
+	reach, _ := validationReach(p)
+	var fns []*ssa.Function
+	for _, fn := range p.Funcs {
+		if reach[fn] {
+			fns = append(fns, fn)
+		}
+	}
+	reportBounds(c, "C13-BOUNDS", fns, validAxioms)
+}
+
+func reportBounds(c *Ctx, rule string, fns []*ssa.Function, axioms func(bc *boundsCtx, f *factSet, ins ssa.Instruction)) {
+	p := c.P
+	for _, fn := range fns {
+		sites := checkBounds(p, fn, axioms)
+		if len(sites) == 0 {
+			continue
+		}
+		c.Funcs[fnName(fn)] = true
+		sortSites(p, sites)
+		// ordinal per (what, base description)
+		count := map[string]int{}
+		for _, s := range sites {
+			c.Sites++
+			desc := s.What + ":" + baseName(s.Ins)
+			count[desc]++
+			disc := fmt.Sprintf("%s#%d", desc, count[desc])
+			if s.Proved {
+				c.OK(rule, fnName(fn), disc, instrPos(s.Ins), "in bounds on every path")
+			} else {
+				c.Bad(rule, fnName(fn), disc, instrPos(s.Ins), "not proved in bounds: "+s.Why+" — a rule text / input reaching this expression with the unguarded shape panics")
+			}
+		}
+	}
+}
+
+func baseName(ins ssa.Instruction) string {
+	var base ssa.Value
+	switch x := ins.(type) {
+	case *ssa.IndexAddr:
+		base = x.X
+	case *ssa.Index:
+		base = x.X
+	case *ssa.Slice:
+		base = x.X
+	}
+	return srcName(base, 0)
+}
+
+// srcName: a readable, position-free name for a value (parameter / variable comment).
+func srcName(v ssa.Value, depth int) string {
+	if depth > 4 || v == nil {
+		return "expr"
+	}
+	switch x := v.(type) {
+	case *ssa.Parameter:
+		return x.Name()
+	case *ssa.Phi:
+		if x.Comment != "" {
+			return x.Comment
+		}
+	case *ssa.Alloc:
+		if x.Comment != "" {
+			return x.Comment
+		}
+	case *ssa.UnOp:
+		return srcName(x.X, depth+1)
+	case *ssa.FieldAddr:
+		return srcName(x.X, depth+1) + "." + fieldAddrName(x)
+	case *ssa.IndexAddr:
+		return srcName(x.X, depth+1) + "[]"
+	case *ssa.Slice:
+		return srcName(x.X, depth+1)
+	case *ssa.Call:
+		n := calleeName(&x.Call)
+		if i := strings.LastIndex(n, "."); i >= 0 {
+			n = n[i+1:]
+		}
+		return n + "()"
+	case *ssa.Extract:
+		return srcName(x.Tuple, depth+1)
+	case *ssa.Global:
+		return x.Name()
+	case *ssa.MakeSlice:
+		return "make"
+	}
+	return "expr"
+}
+
+// validAxioms: facts about other programs' output needed in package valid (one reason each).
+func validAxioms(bc *boundsCtx, f *factSet, ins ssa.Instruction) {
+	// Index(s, a) and LastIndex(s, b) of two different constant bytes cannot coincide.
+	var idxCalls []*ssa.Call
+	for _, b := range bc.fn.Blocks {
+		for _, i := range b.Instrs {
+			if call, ok := i.(*ssa.Call); ok {
+				switch calleeName(&call.Call) {
+				case "strings.Index", "strings.LastIndex":
+					if s, ok := constString(call.Call.Args[1]); ok && len(s) == 1 {
+						idxCalls = append(idxCalls, call)
+					}
+				}
+			}
+		}
+	}
+	for i := 0; i < len(idxCalls); i++ {
+		for j := i + 1; j < len(idxCalls); j++ {
+			a, b := idxCalls[i], idxCalls[j]
+			sa, _ := constString(a.Call.Args[1])
+			sb, _ := constString(b.Call.Args[1])
+			if sa != sb && bc.key(a.Call.Args[0]) == bc.key(b.Call.Args[0]) {
+				f.nes = append(f.nes, neq{bc.key(a), bc.key(b), 0})
+			}
+		}
+	}
+}
+
+func runC13Misc(c *Ctx) {
+	p := c.P
+	c.Rule("C13-MISC", "unchecked type assertions have a producer proof; indirect rule-function calls are nil-guarded; no panic/fatal/os.Exit/Must* call with non-constant input on a validation path", 3)
+	reach, _ := validationReach(p)
+	pools := findPools(p)
+	nAssert, nFatal := 0, 0
+	for _, fn := range p.Funcs {
+		if !reach[fn] {
+			continue
+		}
+		for _, b := range fn.Blocks {
+			if !reachableBlocks(fn)[b] {
+				continue
+			}
+			for _, ins := range b.Instrs {
+				switch x := ins.(type) {
+				case *ssa.TypeAssert:
+					if x.CommaOk {
+						continue
+					}
+					nAssert++
+					c.Sites++
+					// producer rules: result of a sync.Pool Get whose New returns that type and every Put puts that type;
+					// result of the type cache Load (who-stores, checked by C08-MISS)
+					just := ""
+					if call, ok := x.X.(*ssa.Call); ok && calleeName(&call.Call) == "(*sync.Pool).Get" {
+						g, _ := call.Call.Args[0].(*ssa.Global)
+						for _, pi := range pools {
+							if pi.G == g {
+								okPuts := true
+								for _, put := range pi.Puts {
+									mi, isMI := put.Call.Args[1].(*ssa.MakeInterface)
+									if !isMI || mi.X.Type().String() != x.AssertedType.String() {
+										okPuts = false
+									}
+								}
+								if okPuts && poolNewReturns(p, g, x.AssertedType.String()) {
+									just = "pool New and every Put produce " + shortType(x.AssertedType.String())
+								}
+							}
+						}
+					}
+					if ex, ok := x.X.(*ssa.Extract); ok {
+						if call, ok := ex.Tuple.(*ssa.Call); ok && call.Call.IsInvoke() && call.Call.Method.Name() == "Load" {
+							just = "value loaded from the type cache: every Store stores this type (rule C08-MISS)"
+						}
+					}
+					c.Check(just != "", "C13-MISC", fnName(fn), "assert:"+shortType(x.AssertedType.String()), x.Pos(), just, "unchecked type assertion without a producer proof")
+				case ssa.CallInstruction:
+					n := calleeName(x.Common())
+					fatal := n == "os.Exit" || strings.HasPrefix(n, "log.Fatal") || strings.HasPrefix(n, "log.Panic") || strings.HasPrefix(n, "(*log.Logger).Fatal") || strings.HasPrefix(n, "(*log.Logger).Panic") || n == "regexp.MustCompile" || n == "builtin.panic"
+					if fatal {
+						nFatal++
+						constArgs := true
+						for _, a := range x.Common().Args {
+							if _, isC := a.(*ssa.Const); !isC {
+								constArgs = false
+							}
+						}
+						if n == "regexp.MustCompile" && constArgs {
+							continue
+						}
+						c.Bad("C13-MISC", fnName(fn), "fatal:"+n, instrPos(ins), "call of "+n+" on a validation path")
+					}
+				case *ssa.Panic:
+					c.Bad("C13-MISC", fnName(fn), "panic", x.Pos(), "explicit panic on a validation path")
+				}
+			}
+		}
+	}
+	c.OK("C13-MISC", "valid", "fatal-calls", token.NoPos, fmt.Sprintf("%d unchecked assertions justified, no fatal call with non-constant input among reachable functions", nAssert))
+	// indirect calls nil-guarded: from the walker interpretation
+	wl := runWalkLayers(p)
+	bad := 0
+	n := 0
+	for _, we := range walkEvents(wl, "fn-not-nil-checked") {
+		_ = we
+		bad++
+	}
+	for range walkEvents(wl, "rulecall") {
+		n++
+	}
+	c.Check(bad == 0 && n > 0, "C13-MISC", "walkers", "fn-nil-guard", token.NoPos, fmt.Sprintf("%d indirect rule calls, each after a nil test of the function value", n), fmt.Sprintf("%d indirect rule calls without a nil test of the function value (built-in rules hold nil in the table)", bad))
+	_ = nFatal
+}
+
+func poolNewReturns(p *Prog, g *ssa.Global, typ string) bool {
+	// the composite literal sync.Pool{New: func() interface{} { return new(T) }} in package init
+	sp := g.Pkg
+	initFn := sp.Func("init")
+	if initFn == nil {
+		return false
+	}
+	for _, b := range initFn.Blocks {
+		for _, ins := range b.Instrs {
+			st, ok := ins.(*ssa.Store)
+			if !ok {
+				continue
+			}
+			fa, ok := st.Addr.(*ssa.FieldAddr)
+			if !ok || fa.X != g {
+				continue
+			}
+			var f *ssa.Function
+			switch v := st.Val.(type) {
+			case *ssa.Function:
+				f = v
+			case *ssa.MakeClosure:
+				f = v.Fn.(*ssa.Function)
+			}
+			if f == nil {
+				continue
+			}
+			for _, fb := range f.Blocks {
+				if ret, ok := fb.Instrs[len(fb.Instrs)-1].(*ssa.Return); ok && len(ret.Results) == 1 {
+					if mi, ok := ret.Results[0].(*ssa.MakeInterface); ok && mi.X.Type().String() == typ {
+						return true
+					}
+				}
+			}
+		}
+	}
+	return false
+}
